@@ -11,6 +11,7 @@ package core
 // (spec/auth/TraceAuthFlow.tla).
 
 import (
+	"bufio"
 	"context"
 	"encoding/json"
 	"fmt"
@@ -29,6 +30,9 @@ import (
 	"github.com/bluenviron/gortsplib/v5"
 	"github.com/bluenviron/gortsplib/v5/pkg/base"
 	"github.com/bluenviron/gortsplib/v5/pkg/description"
+	"github.com/bluenviron/mediacommon/v2/pkg/formats/mpegts"
+	tscodecs "github.com/bluenviron/mediacommon/v2/pkg/formats/mpegts/codecs"
+	srt "github.com/datarhei/gosrt"
 
 	"github.com/bluenviron/mediamtx/internal/auth"
 	"github.com/bluenviron/mediamtx/internal/conf"
@@ -138,20 +142,31 @@ type vf03Env struct {
 	rtsp string
 	rtmp string
 	hls  string
+	srt  string
+}
+
+func vf03FreeUDPPort(t testing.TB) int {
+	c, err := net.ListenPacket("udp", "127.0.0.1:0")
+	if err != nil {
+		t.Fatal(err)
+	}
+	defer c.Close()
+	return c.LocalAddr().(*net.UDPAddr).Port
 }
 
 func vf03StartCore(t testing.TB, users []vf03User) *vf03Env {
 	var p *Core
 	var ports []int
 	for attempt := 0; attempt < 5; attempt++ {
-		ports = vf03FreePorts(t, 4)
+		ports = append(vf03FreePorts(t, 4), vf03FreeUDPPort(t))
 		var b strings.Builder
 		fmt.Fprintf(&b, "logLevel: error\nreadTimeout: 20s\nwriteTimeout: 20s\n")
 		fmt.Fprintf(&b, "api: yes\napiAddress: 127.0.0.1:%d\n", ports[0])
 		fmt.Fprintf(&b, "rtsp: yes\nrtspTransports: [tcp]\nrtspEncryption: \"no\"\nrtspAddress: 127.0.0.1:%d\n", ports[1])
 		fmt.Fprintf(&b, "rtmp: yes\nrtmpEncryption: \"no\"\nrtmpAddress: 127.0.0.1:%d\n", ports[2])
 		fmt.Fprintf(&b, "hls: yes\nhlsAddress: 127.0.0.1:%d\nhlsTrustedProxies: [127.0.0.1]\nhlsVariant: mpegts\n", ports[3])
-		fmt.Fprintf(&b, "webrtc: no\nsrt: no\nmoq: no\nmetrics: no\npprof: no\nplayback: no\n")
+		fmt.Fprintf(&b, "srt: yes\nsrtAddress: 127.0.0.1:%d\n", ports[4])
+		fmt.Fprintf(&b, "webrtc: no\nmoq: no\nmetrics: no\npprof: no\nplayback: no\n")
 		fmt.Fprintf(&b, "authInternalUsers:\n")
 		for _, u := range users {
 			fmt.Fprintf(&b, "- user: %s\n  pass: %q\n  ips: [%s]\n  permissions:\n", u.User, u.Pass, strings.Join(u.IPs, ", "))
@@ -185,6 +200,7 @@ func vf03StartCore(t testing.TB, users []vf03User) *vf03Env {
 		rtsp: fmt.Sprintf("127.0.0.1:%d", ports[1]),
 		rtmp: fmt.Sprintf("127.0.0.1:%d", ports[2]),
 		hls:  fmt.Sprintf("127.0.0.1:%d", ports[3]),
+		srt:  fmt.Sprintf("127.0.0.1:%d", ports[4]),
 	}
 }
 
@@ -212,12 +228,12 @@ func (e *vf03Env) attached(s *vf03Scen, wait time.Duration) bool {
 		data, err := e.p.pathManager.APIPathsGet(s.Name)
 		if err == nil {
 			if s.Action == "publish" {
-				want := map[string]string{"rtsp": "rtspSession", "rtmp": "rtmpConn"}[s.Proto]
+				want := map[string]string{"rtsp": "rtspSession", "rtmp": "rtmpConn", "srt": "srtConn"}[s.Proto]
 				if data.Source != nil && string(data.Source.Type) == want {
 					return true
 				}
 			} else {
-				want := map[string]string{"rtsp": "rtspSession", "rtmp": "rtmpConn", "hls": "hlsSession"}[s.Proto]
+				want := map[string]string{"rtsp": "rtspSession", "rtmp": "rtmpConn", "srt": "srtConn", "hls": "hlsSession"}[s.Proto]
 				for _, r := range data.Readers {
 					if string(r.Type) == want {
 						return true
@@ -345,6 +361,46 @@ func (e *vf03Env) play(s *vf03Scen) (note string) {
 				note = "writer: " + err.Error()
 			} else if err = w.WriteH264(track, 2*time.Second, 2*time.Second, [][]byte{{5, 2, 3, 4}}); err != nil {
 				note = "write: " + err.Error()
+			}
+		}
+		return note + fmt.Sprintf(" attached=%v", e.attachedNow(s, true))
+
+	case "srt/publish", "srt/read":
+		if s.Action == "read" {
+			stop := e.feed(s)
+			defer stop()
+		}
+		cfg := srt.DefaultConfig()
+		mode := map[string]string{"publish": "publish", "read": "read"}[s.Action]
+		cfg.StreamId = mode + ":" + s.Name
+		if s.User != "" || s.Pass != "" {
+			cfg.StreamId += ":" + s.User + ":" + s.Pass
+		}
+		cfg.ConnectionTimeout = 12 * time.Second
+		conn, err := srt.Dial("srt", e.srt, cfg)
+		if err != nil {
+			note = "dial: " + err.Error()
+			if s.Reload != "none" {
+				e.reload(s)
+			}
+			return note + fmt.Sprintf(" attached=%v", e.attachedNow(s, false))
+		}
+		defer conn.Close()
+		if s.Action == "publish" {
+			// authorized (FindPathConf) when the connection request was accepted; the publisher is
+			// attached only when the MPEG-TS tracks arrive: the reload goes in between
+			if s.Reload != "none" {
+				e.reload(s)
+			}
+			track := &mpegts.Track{Codec: &tscodecs.H264{}}
+			bw := bufio.NewWriter(conn)
+			w := &mpegts.Writer{W: bw, Tracks: []*mpegts.Track{track}}
+			if err = w.Initialize(); err != nil {
+				note = "writer: " + err.Error()
+			} else if err = w.WriteH264(track, 0, 0, [][]byte{test.FormatH264.SPS, test.FormatH264.PPS, {5, 1}}); err != nil {
+				note = "write: " + err.Error()
+			} else if err = bw.Flush(); err != nil {
+				note = "flush: " + err.Error()
 			}
 		}
 		return note + fmt.Sprintf(" attached=%v", e.attachedNow(s, true))
